@@ -8,7 +8,7 @@ for t, nloops in [('boolean', 2), ('int32', 0), ('int64', 0), ('int96', 1), ('fl
     JOBS.append(dict(name='c08_plain_' + t, props=['C08', 'C12'], entry='h_plain_' + t, enforce=fn,
                      min_loop_obligations=nloops, timeout=240, wip=False, est_s=20 if t == 'boolean' else 10, **P08))
 JOBS.append(dict(name='c08_plain_fixed', props=['C08', 'C12'], entry='h_plain_fixed', harness='harness/C08/plain.c',
-                 includes=['.'], loop_contracts=False, backend=['z3', 'sat'], timeout=400, tier='thorough', est_s=150,
+                 includes=['.'], loop_contracts=False, backend=['cvc5', 'z3'], timeout=400, tier='thorough', est_s=150,
                  functions=['carquet_decode_plain_fixed_byte_array'], wip=False))
 # (the former *_hugecount variants are now the main jobs: no bound on count, see harness/C08/plain.c)
 PLAIN_FZ = dict(kind='fuzz', harness='replay/fz/plain_decode.c', max_len=40, secs=20,
